@@ -6,6 +6,9 @@ import S3V.Model.HttpDe
 import S3V.Model.SigV4Base
 import S3V.Model.PostForm
 import S3V.Model.Prepare
+import S3V.Model.HttpBody
+import S3V.Gen.XmlSer
+import S3V.Spec.XmlOutput
 /-!
 Driver for the end-to-end components through `S3Service::call`:
 
@@ -476,21 +479,92 @@ def judgeAuth (id : String) (fs : List String) (outs : List String) : String :=
     | _, _ => badline id
   | _, _ => badline id
 
-/-! ## svcoutput (C03): header-bound output members, status, extra headers -/
+/-! ## svcoutput (C03): header-bound output members, status, extra headers; the XML response body -/
+
+/-- the serialiser schema of a type as the model reads it off `impl SerializeContent` (what `Drv/Xml.lean` runs) -/
+def serSchemaOf (t : S3V.XmlGen.Ty) : Option S3V.Xml.Sch :=
+  S3V.Xml.resolveKind S3V.XmlGen.serDef S3V.XmlGen.serDepth (.ref t)
+
+/-- a timestamp text stands for itself: the model side only asks whether the bytes are the model's bytes -/
+def rawExt : S3V.Xml.Ext := { tsParse := fun _ raw => some raw }
+
+/-- MODEL side of an XML response body: the bytes are `set_xml_body[_no_decl] v` of `S3V/Model/HttpBody.lean` for the value
+    `v` the model's reader finds in them, at the root and schema of the type `serialize_http` writes (table
+    `implOutBody`) — i.e. the observed body is one of the bodies `C03_payload_roundtrip_every_operation` speaks about.
+    `pre` = what the keep-alive wrapper sent before the document (the declaration, white space). `none` = equal. -/
+def modelBodyDiff (op : Op) (body : Bytes) : Option String :=
+  let go := fun (ty : S3V.XmlGen.Ty) (decl : Bool) =>
+    match S3V.XmlGen.serRoot ty, serSchemaOf ty with
+    | some sr, some ss =>
+      let doc :=
+        if op == keepAliveOp && body.take S3V.Xml.xmlDecl.length == S3V.Xml.xmlDecl then
+          (body.drop S3V.Xml.xmlDecl.length).dropWhile S3V.Xml.isWs
+        else body
+      match S3V.HttpBody.deserializeXml rawExt sr.forget ss doc with
+      | .error _ => some "the model's reader refuses the body"
+      | .ok v =>
+        if S3V.HttpBody.setXmlBody decl sr ss v == doc then none
+        else some "set_xml_body of the model writes other bytes for the value read"
+    | _, _ => some "no serialiser table for the type"
+  match implOutBody op with
+  | [⟨_, .xml ty _⟩] => go ty true
+  | [⟨_, .xmlSelf ty decl⟩] => go ty decl
+  | _ => some "the generated code writes no XML body"
+
+/-- `xo=` runs: the response body against the value the backend returned. `some (true, d)` = SPECFAIL, `some (false, d)` =
+    DISAGREE, `none` = the client reads the value and the bytes are the model's. -/
+def judgeXmlBody (op : Op) (resp : List (String × String)) (bodyHex linesHex : String) : Option (Bool × String) :=
+  let header := fun (w : String) => (resp.filter (fun p => p.1 == w)).map (·.2)
+  match (if bodyHex == "-" then some [] else hexDecode bodyHex) with
+  | none => some (true, "body field is not hex")
+  | some body =>
+    let want : S3V.XmlOutSpec.Lines := (decodeList linesHex).map fun l => splitFirst l '='
+    let lenText := toString body.length
+    if header "content-type" != ["application/xml"] then
+      some (true, s!"Content-Type {header "content-type"} instead of application/xml")
+    else if body.take S3V.XmlOutSpec.declBytes.length != S3V.XmlOutSpec.declBytes then
+      some (true, "the body does not start with the XML declaration")
+    else if S3V.XmlOutSpec.countSub [60, 63, 120, 109, 108] body != 1 then
+      some (true, "more than one XML declaration in the body")
+    else if !(header "content-length").all (· == lenText) then
+      some (true, s!"Content-Length {header "content-length"} but the body has {lenText} bytes")
+    else if op != keepAliveOp && header "@size-hint" != [lenText ++ "-" ++ lenText] then
+      -- an HTTP server derives Content-Length from the exact size hint of the body
+      some (true, s!"size hint {header "@size-hint"} but the body has {lenText} bytes")
+    else match S3V.XmlOutSpec.readBody op body with
+      | .error why => some (true, why)
+      | .ok got =>
+        match S3V.XmlOutSpec.firstDifference want got with
+        | some d => some (true, d)
+        | none => (modelBodyDiff op body).map fun d => (false, d)
 
 def judgeOutput (id : String) (fs : List String) (outs : List String) : String :=
   match fs, outs with
-  | [_cfg, _method, _target, _headers, _body, opn, expect], status :: _code :: calls :: respH :: _ =>
+  | [cfg, _method, _target, _headers, _body, opn, expect], status :: _code :: calls :: respH :: more =>
     match Op.ofName opn with
     | none => badline id
     | some op =>
       let calls := decodeList calls
       let st := status.toNat!
+      -- `xo=<seed>`: the backend returned a Smithy-driven value in the XML response body
+      let xmlRun := cfgGet cfg "xo" != "none"
+      let xmlVerdict : Option (Bool × String) :=
+        if !xmlRun then none
+        else match more with
+          | bodyHex :: linesHex :: _ =>
+            if linesHex == "-" then some (true, "the backend was given no XML body to return (no Smithy XML output?)")
+            else judgeXmlBody op ((decodeList respH).map fun h => splitFirst h ':') bodyHex linesHex
+          | _ => some (true, "no body fields")
+      let finish := fun (cls : String) =>
+        match xmlVerdict with
+        | some (true, d) => specfail id ("output-body:" ++ opn) d
+        | some (false, d) => disagree id d "response body"
+        | none => agree id (if xmlRun then "xmlout:" ++ opn else cls)
       if calls != [s!"backend:{op.backendMethod}:-:-:-"] then
         specfail id ("output-not-reached:" ++ opn) s!"status={status}"
       else if op == keepAliveOp then
         -- header-bound members and extra headers of the keep-alive completion travel as trailers: component `keepalive`
-        if st == 200 then agree id "keep-alive-op-covered-by-keepalive" else specfail id ("output-status:" ++ opn) status
+        if st == 200 then finish "keep-alive-op-covered-by-keepalive" else specfail id ("output-status:" ++ opn) status
       else
         let resp : List (String × String) := (decodeList respH).map fun h => splitFirst h ':'
         let expect : List (String × List String) := (decodeList expect).map fun e =>
@@ -530,7 +604,7 @@ def judgeOutput (id : String) (fs : List String) (outs : List String) : String :
         else if !modelBad.isEmpty then disagree id ("; ".intercalate modelBad) "response headers"
         else if st != (if op == .GetObject && expect.any (fun e => e.1 == "content_range") then 206 else implStatus op) then
           disagree id s!"table status {implStatus op}" s!"status={status}"
-        else agree id (if expect.isEmpty then "no-header-members" else "op:" ++ opn)
+        else finish (if expect.isEmpty then "no-header-members" else "op:" ++ opn)
   | _, _ => badline id
 
 def judge (fs : List String) : String :=
